@@ -55,7 +55,18 @@ def run_case(case):
                 raise Violation("block lengths %r, expected all %d" % (sorted(set(map(len, blocks))), eff), "blocks:length")
             back = []
             for b in blocks:
-                back.extend(du.parse_identifiers_from_block_given_identifier_size(b, size))
+                got = du.parse_identifiers_from_block_given_identifier_size(b, size)
+                back.extend(got)
+                # the parsed list belongs to the caller: sorting / extending / emptying it must not change what parsing an equal
+                # block returns afterwards
+                snapshot = list(got)
+                got.reverse()
+                got += [b"\xee" * size]
+                if len(got) > 2:
+                    del got[:1]
+                if du.parse_identifiers_from_block_given_identifier_size(bytes(b), size) != snapshot:
+                    raise Violation("parsing the same block again after the caller modified the first result gives another answer",
+                                    "blocks:parse_result_shared")
             if back != ids:
                 raise Violation("parse-by-size(partition(ids)) != ids (%d vs %d ids)" % (len(back), len(ids)), "blocks:parse_size")
             if eff // cap == size:
